@@ -104,6 +104,11 @@ def parseKvs (t : String) : Option (List (String × Astm.Fields.V)) :=
     | [k, v] => (parseV v).map fun x => (k, x)
     | _ => none
 
+def parseSel (t : String) : Option (Nat ⊕ Nat) :=
+  if t.startsWith "o" then ((t.drop 1).toString.toNat?).map Sum.inl
+  else if t.startsWith "n" then ((t.drop 1).toString.toNat?).map Sum.inr
+  else none
+
 def parseHeapOp (modName : String) (toks : List String) : Option Astm.Heap.Op :=
   match toks with
   | ["C", letter, now, rec] => do
@@ -116,6 +121,10 @@ def parseHeapOp (modName : String) (toks : List String) : Option Astm.Heap.Op :=
   | ["AP", r, fld, kvs] => do pure (.appendRep (← r.toNat?) fld (← parseKvs kvs))
   | ["AC", r, fld, kvs] => do pure (.assignComp (← r.toNat?) fld (← parseKvs kvs))
   | ["N", r, fld] => do pure (.assignNone (← r.toNat?) fld)
+  | ["RL", r, fld, news, sel] => do
+    let ns ← if news == "-" then some [] else (news.splitOn "+").mapM parseKvs
+    let ss ← if sel == "-" then some [] else (sel.splitOn ",").mapM parseSel
+    pure (.relist (← r.toNat?) fld ns ss)
   | _ => none
 
 def showDict (d : Astm.Fields.Dict) : String := " ".intercalate (d.map fun kv => kv.1 ++ ":" ++ showFV kv.2)
